@@ -24,6 +24,7 @@ var (
 
 type textOpts struct {
 	extra     []string // format-specific hazards, used as atoms
+	replChar  bool     // U+FFFD is a character like any other (legal in XML)
 	forbid    []string // substrings that must not occur (removed by construction)
 	controls  bool
 	nbsp      bool
@@ -114,7 +115,11 @@ func sanitizeText(s string, o textOpts) string {
 			if !o.feff {
 				return -1
 			}
-		case 0, unicode.ReplacementChar:
+		case unicode.ReplacementChar:
+			if !o.replChar {
+				return -1
+			}
+		case 0:
 			return -1
 		case '\u00a0':
 			if !o.nbsp {
